@@ -9,6 +9,8 @@ Rule            (r pred (pred…) (expr…))
 -/
 import BiscuitModel.Model.Authorizer
 import BiscuitModel.Model.Unmarshal
+import BiscuitModel.Model.Grammar
+import BiscuitModel.Model.Printer
 import BiscuitModel.Driver.Sexp
 
 namespace Biscuit.Driver
